@@ -8,7 +8,8 @@
 From Coq Require Import String List NArith Arith Bool.
 Import ListNotations.
 Require Import Verif.Imports.Rules Verif.Imports.Collect Verif.Imports.CollectProps Verif.Imports.FlattenProps
-               Verif.Imports.TermProps Verif.Imports.Index Verif.Imports.IndexProps Verif.Gen.ImportRules.
+               Verif.Imports.TermProps Verif.Imports.Index Verif.Imports.IndexProps Verif.Imports.Extract Verif.Imports.ExtractProps
+               Verif.Gen.ImportRules.
 
 Lemma rules_current : current_rules = expected_rules.
 Proof. reflexivity. Qed.
@@ -80,6 +81,13 @@ Proof.
   rewrite rules_current. split; [exact index_slash_direction|]. split; [exact index_version|].
   split; [exact index_distinguishes|exact index_idempotent].
 Qed.
+
+Theorem extract_layout_current :
+  (forall a l b, is_layout l = true -> extract current_rules (a ++ l :: b) = extract current_rules (a ++ b)) /\
+  (forall sec body, Forall (fun l => is_import current_rules l = false) body ->
+      extract current_rules (sec ++ body) = filter (is_import current_rules) sec /\
+      (forall l, In l (extract current_rules (sec ++ body)) <-> In l sec /\ is_import current_rules l = true)).
+Proof. rewrite rules_current. split; [exact extract_ignores_layout|exact extract_exact]. Qed.
 
 (* ---------------- non-vacuity of the hypotheses ---------------- *)
 (* a cyclic graph with a diamond and a self-import: 0->1,2,0 ; 1->3,1 ; 2->3,0 ; 3->1,3 *)
